@@ -7,7 +7,7 @@ PROP = {'modules': ['AmVerif.Props.C08'],
          'script assets (self and mutual get_cached look-ups), file of a0 edited + notified, one hot_reload(); case 16: 4 threads x 400 '
          'hot_reload(); case 17: loader panic in a dependent during the reload; later cases random: 40% hr.update (1-6 assets [thorough 10], '
          'random load DAG + random look-ups incl. cycles, random changed files, 1/6 with a panicking loader), 50% hr.conc (1-8 [16] threads x '
-         '5-3000 [20000] hot_reload() calls, 0-2 loader threads doing load/get_or_insert, 0-1 threads editing + notifying), 10% malformed lines '
+         '5-3000 [20000] hot_reload() calls (threads x calls <= 50000), 0-2 loader threads doing load/get_or_insert, 0-1 threads editing + notifying), 10% malformed lines '
          '(both sides must answer bad-op). Free-running threads are a SEARCH: the model is asked whether some schedule explains the outcome. '
          'non-trivial = a child was run; distinct = distinct (op, outcome) transcripts',
  'assumptions': ['std / parking_lot Mutex + Condvar: mutual exclusion, wait = atomic release-and-sleep, notify_all wakes every waiter; spurious wake-ups allowed',
